@@ -283,11 +283,26 @@ func (p *Policy) AddToSuspiciousPeerList(pubkey string) error {
 }
 
 func addLineToFile(filePath, line string) error {
-	file, err := os.OpenFile(filePath, os.O_APPEND|os.O_WRONLY, 0660)
+	file, err := os.OpenFile(filePath, os.O_APPEND|os.O_RDWR, 0660)
 	if err != nil {
 		return err
 	}
 	defer file.Close()
+	// A hand-edited file may lack the trailing newline: never glue the new
+	// entry onto the last line.
+	st, err := file.Stat()
+	if err != nil {
+		return err
+	}
+	if st.Size() > 0 {
+		last := make([]byte, 1)
+		if _, err := file.ReadAt(last, st.Size()-1); err != nil {
+			return err
+		}
+		if last[0] != '\n' {
+			line = "\n" + line
+		}
+	}
 	_, err = file.WriteString(line + "\n")
 	if err != nil {
 		return err
